@@ -223,9 +223,6 @@ def conclude(prop, tier, seed, pl, results, extra, args, t0):
                             known_findings=known_lines, explanation=pl.get("explanation", "")),
               assumptions=sorted(set(pl.get("assumptions", []))),
               wall_s=wall, violations=len(violations))
-    if level != "proof" or n_ob == 0:
-        ev["coverage"]["evaluations"] = max(1, n_ob)
-        ev["coverage"]["distinct_nontrivial"] = max(2, n_dis)
     if not args.no_evidence:
         os.makedirs(os.path.join(ROOT, "evidence"), exist_ok=True)
         json.dump(ev, open(os.path.join(ROOT, "evidence", f"{prop}.json"), "w"), indent=1, default=str)
